@@ -505,6 +505,43 @@ Definition check_C10 := failing (fun c => codes_in 61 64 (oracle_check c)).
 Definition check_C08 := failing (fun c => codes_in 71 79 (oracle_check c ++ auth_check c)).
 Definition check_C14 := failing (fun c => codes_in 90 99 (oracle_check c)).
 
+(* ---------- C19: the NFT stored for an accepted record message is the NFT submitted ----------
+   25 a record accepted in this block is pending at its end with another chain id, with a contract address other than
+      the number its 40 hex digits denote (any prefix spelling, any casing), or - for a token id "0x" + digits below
+      2^160 - with another token number *)
+Definition spec_hexnum (s : bytes) : Z := fold_left (fun acc c => acc * 16 + match hexval c with Some v => v | None => 0 end) s 0.
+Definition spec_digits (s : bytes) : bytes := if has0x s then drop2 s else s.
+Definition spec_plain_token (t : bytes) : option Z :=
+  match t with
+  | a :: b :: ds => if (a =? c_0) && (b =? c_x) && negb (lenZ ds =? 0) && forallb is_hex_char ds && (spec_hexnum ds <? two160)
+                    then Some (spec_hexnum ds) else None
+  | _ => None
+  end.
+Definition c19_one (sn : snap) (m : smsg) : bool :=
+  match m with
+  | MRecord _ tid req _ _ chain contract tok =>
+      forallb (fun x : Z * Z * utxr =>
+        if (fst (fst x) =? tid) && bytes_eqb (u_req (snd x)) req then
+          bytes_eqb (n_chain (u_nft (snd x))) chain
+          && (negb (is_hex_address contract) || (n_contract (u_nft (snd x)) =? spec_hexnum (spec_digits contract)))
+          && match spec_plain_token tok with Some v => n_token (u_nft (snd x)) =? v | None => true end
+        else true) (s_utxrs (sn_s sn))
+  | _ => true
+  end.
+Fixpoint c19_walk (k : Z) (pend : list (Z * smsg)) (es : list event) (os : list iobs) : list (Z * Z) :=
+  match es, os with
+  | e :: es', o :: os' =>
+      match e, o with
+      | EvTx _ msgs, ITx COk _ => c19_walk (k + 1) (pend ++ map (fun m => (k, m)) msgs) es' os'
+      | EvEnd _, IEnd _ _ (Some sn) =>
+          map (fun x : Z * smsg => (fst x, 25)) (filter (fun x : Z * smsg => negb (c19_one sn (snd x))) pend)
+          ++ c19_walk (k + 1) [] es' os'
+      | _, _ => c19_walk (k + 1) pend es' os'
+      end
+  | _, _ => []
+  end.
+Definition check_C19 := failing (fun c => c19_walk 0 [] (cs_events c) (cs_obs c)).
+
 (* ---------- C06: panics observed on the implementation ----------
    80 a transaction ended with the SDK panic error (a handler panicked and baseapp recovered)
    81 BeginBlock / EndBlock panicked: every node halts at this height *)
